@@ -39,7 +39,7 @@ func genESpec(t *rapid.T, pr profile, seg int) ESpec {
 		n := rapid.IntRange(1, 12).Draw(t, "hwords")
 		e := ESpec{}
 		for i := 0; i < n; i++ {
-			e.Hostile = append(e.Hostile, byte(rapid.IntRange(0, 8).Draw(t, "hw")))
+			e.Hostile = append(e.Hostile, byte(rapid.IntRange(0, 9).Draw(t, "hw")))
 		}
 		return e
 	}
@@ -196,6 +196,11 @@ func TestCrashC01Stale(t *testing.T) {
 }
 func TestCrashC03Stale(t *testing.T) {
 	common.Run(t, "C03", "CrashC03Stale", genCase("C02"), runFor("C03"))
+}
+
+// TestCrashC09Stale: the format verdicts over the stale-bytes chains of the C02 generator.
+func TestCrashC09Stale(t *testing.T) {
+	common.Run(t, "C09", "CrashC09Stale", genCase("C02"), runFor("C09"))
 }
 func TestCrashC02(t *testing.T) { common.Run(t, "C02", "CrashC02", genCase("C02"), runFor("C02")) }
 func TestCrashC03(t *testing.T) { common.Run(t, "C03", "CrashC03", genCase("C03"), runFor("C03")) }
